@@ -39,3 +39,58 @@ structure EntryConforms (acc : Acc) (σ : Scope) (e : Entry) : Prop where
     σ.get? (lenKey g) = some (Int.ofNat e.tensor.shape.length - Int.ofNat (e.ann.dims.length - 1))
 
 end Dltype.Spec
+
+namespace Dltype.Spec
+open Dltype
+
+/-- the names a postfix program refers to -/
+def namesOf : List PItem → List Name
+  | [] => []
+  | .str x :: rest => x :: namesOf rest
+  | _ :: rest => namesOf rest
+
+/-- full conformance of one dimension: every dimension that is not a plain identifier (a literal, an
+    expression, `name=…`) has a program whose value under the assignment is the size of the axis -/
+def DimStrong (σ : Scope) (d : DimExpr) (a : Nat) : Prop :=
+  d.isAnonymous = true ∨
+  (σ.get? d.identifier = some (Int.ofNat a) ∧
+    (d.isIdentifier = true ∨ runPostfix d.post [] σ = .val (Int.ofNat a)))
+
+def DimsStrong (σ : Scope) : List DimExpr → List Nat → Prop
+  | [], [] => True
+  | d :: ds, a :: as => DimStrong σ d a ∧ DimsStrong σ ds as
+  | _, _ => False
+
+/-- "every name used inside an expression is bound by an earlier dimension or by the provider":
+    `B` is the set of names bound so far; each non-anonymous dimension adds its identifier -/
+def RefsOrderedDims : List Name → List DimExpr → Prop
+  | _, [] => True
+  | B, d :: ds =>
+    (d.isAnonymous = true ∨ d.isIdentifier = true ∨ ∀ x ∈ namesOf d.post, x ∈ B) ∧
+    RefsOrderedDims (if d.isAnonymous then B else d.identifier :: B) ds
+
+def boundAfter : List Name → List DimExpr → List Name
+  | B, [] => B
+  | B, d :: ds => boundAfter (if d.isAnonymous then B else d.identifier :: B) ds
+
+/-- the same over the tensors of a context in queue order (a named group also binds its length key) -/
+def RefsOrdered : List Name → List Entry → Prop
+  | _, [] => True
+  | B, e :: es =>
+    RefsOrderedDims B (expandDims e.ann e.tensor.shape) ∧
+    RefsOrdered ((match e.ann.multiName with | some g => [lenKey g] | none => []) ++
+      boundAfter B (expandDims e.ann e.tensor.shape)) es
+
+/-- an annotated tensor conforms (fully) to the assignment -/
+structure EntryStrong (acc : Acc) (σ : Scope) (e : Entry) : Prop where
+  check : Dltype.check acc e.ann e.tensor e.displayName = .ok ()
+  dims : DimsStrong σ (expandDims e.ann e.tensor.shape) e.tensor.shape
+  group : ∀ g, e.ann.multiName = some g →
+    σ.get? (lenKey g) = some (Int.ofNat e.tensor.shape.length - Int.ofNat (e.ann.dims.length - 1))
+
+/-- display names are pairwise distinct and not registered yet -/
+def NamesFresh : List Name → List Entry → Prop
+  | _, [] => True
+  | reg, e :: es => e.displayName ∉ reg ∧ NamesFresh (reg ++ [e.displayName]) es
+
+end Dltype.Spec
